@@ -190,6 +190,12 @@ def corpus():
   add('C16', 'narrowing skipped when the request covers the table (set and length only)', 'bad', 'R3/selection',
       edit(ge, 'GeoEligibility.get_eligible_assignments', lambda n: isinstance(n, ast.If) and norm(n.test) == 'geos is not None',
            lambda s, n: 'if geos is not None:\n      if not (len(geos) == len(df.index) and set(geos) == set(df.index)):\n        df = df.loc[geos]\n      if indices:\n        df = df.reset_index()\n    elif indices:\n      raise ValueError("no geos")'))
+  add('C16', 'columns read by position while the constructor keeps the caller\'s column order', 'bad', 'R3/selection',
+      multi(edit(ge, 'GeoEligibility.get_eligible_assignments', is_assign_to('c'), lambda s, n: "c = set(df.index[df.to_numpy()[:, 0] == 1])"),
+            edit(ge, 'GeoEligibility.__init__', lambda n: isinstance(n, ast.Assign) and norm(n).startswith('df = df.loc[:, all_column_names]'),
+                 lambda s, n: 'df = df[df.columns.intersection(all_column_names)]')))
+  add('C16', 'benign: one column read by position, the constructor orders the columns', 'nonviolation', None,
+      edit(ge, 'GeoEligibility.get_eligible_assignments', is_assign_to('c'), lambda s, n: "c = set(df.index[df.to_numpy()[:, 0] == 1])"))
   add('C16', 'benign: narrowing skipped only when the request is the table order', 'nonviolation', None,
       edit(ge, 'GeoEligibility.get_eligible_assignments', lambda n: isinstance(n, ast.If) and norm(n.test) == 'geos is not None',
            lambda s, n: 'if geos is not None:\n      if not list(geos) == list(df.index):\n        df = df.loc[geos]\n      if indices:\n        df = df.reset_index()\n    elif indices:\n      raise ValueError("no geos")'))
@@ -212,6 +218,12 @@ def corpus():
   add('C17', 'comparison through the inverse operator (NaN passes)', 'bad', 'R2/helper',
       edit(dp, 'TBRMMDesignParameters._test_value_vs_threshold', lambda n: isinstance(n, ast.Assign) and norm(n.targets[0]) == 'test_ok',
            lambda s, n: "test_ok = specified and not self._test_functions[self._inverse_op[op]](value, bound)"))
+  add('C17', 'upper end of an integer range is no longer tested for integrality', 'bad', 'R2/helper',
+      edit(dp, 'TBRMMDesignParameters._test_range', lambda n: isinstance(n, ast.BoolOp) and isinstance(n.op, ast.Or) and 'int(upper_range) != upper_range' in norm(n),
+           'int(lower_range) != lower_range'))
+  add('C17', 'benign: integrality of the two ends spelled with is_integer()', 'benign', None,
+      edit(dp, 'TBRMMDesignParameters._test_range', lambda n: isinstance(n, ast.BoolOp) and isinstance(n.op, ast.Or) and 'int(upper_range) != upper_range' in norm(n),
+           'not float(lower_range).is_integer() or not float(upper_range).is_integer()'))
   add('C17', 'benign: class constant renamed', 'benign', None,
       multi(edit(dp, 'TBRMMDesignParameters', lambda n: isinstance(n, ast.Assign) and norm(n.targets[0]) == '_MIN_IROAS', lambda s, n: '_IROAS_MIN = 0.0'),
             edit(dp, 'TBRMMDesignParameters.__post_init__', lambda n: isinstance(n, ast.Attribute) and norm(n) == 'self._MIN_IROAS', 'self._IROAS_MIN')))
@@ -428,6 +440,13 @@ def corpus():
   add('C06', 'probability without 1 -', 'bad', 'R2/one-distribution', edit(tb, 'TBR.summary', lambda n: isinstance(n, ast.BinOp) and norm(n).startswith('1.0 - delta.cdf'), lambda s, n: s.replace('1.0 - ', '', 1)))
   add('C06', 'revert fix: signed rescale in the scale', 'bad', 'R4/scale-sign', edit(tb, 'TBR.causal_cumulative_distribution', lambda n: isinstance(n, ast.Call) and norm(n) == 'np.abs(rescale)', 'rescale'))
   add('C06', 'groupby(sort=False)', 'bad', 'R1/information-flow', edit(tb, 'TBR._construct_analysis_data', lambda n: isinstance(n, ast.Call) and norm(n.func).endswith('groupby'), lambda s, n: s.replace('(preserve)', '(preserve, sort=False)')))
+  for pid_, rule_ in (('C06', 'R1/read-does-not-mutate'), ('C07', 'R2/read-does-not-mutate'), ('C18', 'R5/read-does-not-mutate')):
+    add(pid_, 'the covariance matrix of the fitted model is scaled in place (a second read sees it scaled twice)', 'bad', rule_,
+        edit(tb, 'TBR.causal_cumulative_distribution', is_assign_to('vsigma'),
+             lambda s, n: 'vsigma = self.pre_period_model.normalized_cov_params\n    vsigma *= self.pre_period_model.scale'))
+    add(pid_, 'benign: a private copy of the covariance matrix is scaled in place', 'nonviolation', None,
+        edit(tb, 'TBR.causal_cumulative_distribution', is_assign_to('vsigma'),
+             lambda s, n: 'vsigma = np.array(self.pre_period_model.normalized_cov_params)\n    vsigma *= self.pre_period_model.scale'))
   add('C06', 'benign: probability via sf', 'benign', None, edit(tb, 'TBR.summary', lambda n: isinstance(n, ast.BinOp) and norm(n).startswith('1.0 - delta.cdf'), lambda s, n: 'delta.sf(threshold).reshape(ndates)'))
   add('C07', 'upper column times cost from lower', 'bad', 'R1/fixed-cost-algebra', edit(ti, 'TBRiROAS.summary', lambda n: isinstance(n, ast.Assign) and norm(n.targets[0]) == "report['incremental_response_upper']" and 'cost' in norm(n.value),
                                                                                          lambda s, n: "report['incremental_response_upper'] = report['lower'] * cost"))
